@@ -66,6 +66,16 @@ def gen():
         info = json.loads(out.strip().split("\n")[-1])
     except Exception:
         info = {"errors": ["gen_source.py crashed: " + out[-2000:]]}
+    # function bodies: Rust -> Lean (tools/rs2lean.py), one generated file per property
+    rc2, out2, _ = sh([sys.executable, os.path.join(VERIF, "tools", "rs2lean.py"), os.path.join(LEAN, "BV", "Gen")])
+    try:
+        info2 = json.loads(out2.strip().split("\n")[-1])
+    except Exception:
+        info2 = {"errors": ["rs2lean.py crashed: " + out2[-2000:]], "files": {}}
+    info["errors"] = list(info.get("errors", [])) + ["rs2lean: " + e for e in info2.get("errors", [])]
+    info["translated_fns"] = {k: v.get("fns") for k, v in info2.get("files", {}).items()}
+    if any(v.get("changed") for v in info2.get("files", {}).values()):
+        info["changed_source"] = True
     return info
 
 
@@ -466,7 +476,7 @@ def check(prop, tier, seed, replay=None):
             "exhaustive": bool(cfg.get("exhaustive", False)),
             "counters": counters,
             "correspondence": {s["name"]: {"lines": s.get("corr", {}).get("lines", 0), "disagreements": s.get("corr", {}).get("ndis", 0)} for s in stages},
-            "gen": {k: g.get(k) for k in ("items", "fns", "changed_source", "errors")},
+            "gen": {k: g.get(k) for k in ("items", "fns", "translated_fns", "changed_source", "errors")},
             "stage_wall_s": {s["name"]: s["wall_s"] for s in stages},
             "repo_head": head, "notes": notes, "fingerprint_mismatches": moved,
             "known_findings_hit": [k.get("signature") for k, _ in known_hits][:20],
